@@ -349,9 +349,12 @@ def classTable : List (Bytes × Nat) :=
 
 def marshalPrefix : Bytes := b!"org.apache.cassandra.db.marshal."
 
-def classType (cls : Bytes) : Nat :=
-  let c := if marshalPrefix.isPrefixOf cls then cls.drop marshalPrefix.length else cls
-  (classTable.lookup c).getD 0
+def stripMarshalPrefix (cls : Bytes) : Bytes :=
+  if marshalPrefix.isPrefixOf cls then cls.drop marshalPrefix.length else cls
+
+def classLookup (c : Bytes) : Nat := (classTable.lookup c).getD 0
+
+def classType (cls : Bytes) : Nat := classLookup (stripMarshalPrefix cls)
 
 mutual
 def viewType : TypeDesc → TypeInfo
